@@ -8,12 +8,12 @@ CONSTANTS
   EagerJoin = TRUE
   MaxCmds = 3
   MaxSys = 2
-  Codes = {0, 7}
+  Codes <- CodesWithNeg
   AllowBusy = FALSE
   FifoLocalQueue = TRUE
   StopEndsLoop = TRUE
   FirstCodeKept = TRUE
-  ExitStopsAll = FALSE
+  ExitStopsAll = TRUE
   RunOnArbiterThread = TRUE
   StopBeforeCode = TRUE
   DeregOwnId = TRUE
@@ -25,7 +25,7 @@ CONSTANTS
   BlockOnExact = TRUE
   SelfSend = FALSE
   SelfSendViaChannel = TRUE
-  NegCodeIsErr = TRUE
+  NegCodeIsErr = FALSE
   CtrlBatch = 0
 SPECIFICATION Spec
 VIEW View
